@@ -3,4 +3,4 @@ import hnswfam
 
 
 def run(ctx):
-    return hnswfam.run_family(ctx, ("hnsw", "random", "selftest"))
+    return hnswfam.run_family(ctx, ("hnsw", "random", "recall", "selftest"))
